@@ -397,7 +397,11 @@ func (v *View) checkC03(res *Result) {
 				acq = c // the latest successful write returned before the term started = the acquisition
 			}
 			if c.Op == "Update" && c.Issue > t.Up && c.Issue < end {
-				ups = append(ups, c)
+				// refreshes of this term only (takeover attempts of leftover goroutines are
+				// Updates too, with fresh tokens)
+				if _, tok, _ := DecodeIDToken([]byte(c.ReqVal)); tok == t.Token {
+					ups = append(ups, c)
+				}
 			}
 		}
 		if acq == nil {
